@@ -39,6 +39,8 @@ def cases(max_depth):
         "node": st.integers(0, 40),
         "children": st.booleans(), "keep_id": st.booleans(),
         "detach": st.sampled_from([False, False, False, True]),
+        "nan": st.lists(st.tuples(st.integers(0, 20), st.sampled_from(["uncertainty", "value"])).map(list),
+                        max_size=2),
         "edit_copy": st.booleans(),
         "unname": st.lists(st.integers(0, 40), min_size=0, max_size=2),
         "edits": st.lists(st.tuples(st.sampled_from(EDITS), st.integers(0, 30), st.integers(0, 5)).map(list),
@@ -195,7 +197,8 @@ def ids_of(root):
 
 
 def body(case):
-    doc = build.build_doc(case["doc"])
+    import copy as _copy
+    doc = build.build_doc(S.inject_nan(_copy.deepcopy(case["doc"]), case.get("nan", [])))
     nodes = all_nodes(doc)
     for i in case.get("unname", []):
         o = nodes[i % len(nodes)]
